@@ -197,9 +197,9 @@ fn case_fn(case: &mut Case) -> CaseResult {
         Ok(b) => b.buffer,
         Err(e) => return Err(Failure::new("schema-printer-error", e, detail0)),
     };
-    let mut oopts = OperationTypePrinterOptions::default();
-    oopts.schema_source = "./schema".into();
-    oopts.allow_undefined_as_optional_input = allow_undefined;
+    // (options from configuration text, as the CLI builds them: `generate.type.allowUndefinedAsOptionalInput`
+    // must reach the operation printer too)
+    let oopts = op_options_from(&scfg);
     let op_dts = gen_operation_dts(sdoc, &os.files[0].doc, oopts, None, &detail0)?.buffer;
     let detail = json!({"schema": schema_sdl, "operations": op_text, "operation_dts": op_dts, "allowUndefinedAsOptionalInput": allow_undefined,
         "scalars": cfg.map.iter().map(|(k, v)| (k.clone(), format!("{v:?}"))).collect::<BTreeMap<_, _>>()});
